@@ -12,7 +12,7 @@ K = 'kani'
 B = 'bounded'
 S = 'shape'
 
-HOOK_COMMITS = []
+HOOK_COMMITS = ['e7360bf', 'a5a66f0']
 NOTES = ('Every check is ./check <ID>; the registry of components per property is vlib/registry.py. '
          'Verus obligations are generated from functions cut out of /repo/src on every run (vlib/extract.py); '
          'bounded stand-ins are labelled bounded in the evidence and never counted as obligations.')
@@ -127,8 +127,8 @@ PROPS = {
         level_note=COMMON_NOTE + ' Raw-pointer code (Teddy, is_prefix_raw) is covered by bounded runs only until the Kani unit lands.',
     ),
     'C16': dict(
-        components=[(V, 'u1_search', {}), b('ac', families='small,abc,ci')],
-        level_text='The Automaton contract AC is the hypothesis the proved search loops consume (Verus). Bounded stand-in, exhaustive per automaton: every clause of AC evaluated on all reachable states x 256 bytes x both anchoring arguments of every automaton of the bounded pattern space.',
+        components=[(V, 'u1_search', {}), (V, 'u3_dfa', {}), b('ac', families='small,abc,ci'), b('repr')],
+        level_text='The Automaton contract AC is the hypothesis the proved search loops consume (Verus). For dfa::DFA the accessors themselves are proved (u3_dfa) under the representation invariant dfa_wf: next_state never indexes out of bounds and returns a state id, the dead state is absorbing, is_dead/is_match/is_special/is_start are the id comparisons of the layout, dead and match imply special, match_len/match_pattern index a non-empty list of valid pattern ids, start_state fails exactly for the mode whose start id is the dead state; dfa_wf is executed on the whole table of every real DFA of the bounded space (repr, hook H1). Bounded stand-in, exhaustive per automaton: every clause of AC evaluated on all reachable states x 256 bytes x both anchoring arguments of every automaton of the bounded pattern space.',
         level_note=COMMON_NOTE,
     ),
     'C17': dict(
